@@ -207,12 +207,11 @@ type Verdict struct {
 //	  canonical encoding of a curve point; or the cofactored equation
 //	  [h][S]B = [h]R + [h][k]A fails.
 //	MustAccept: all of the above pass, the cofactorless equation
-//	  [S]B = R + [k]A holds and A is a point of order L (in the prime-order
-//	  subgroup and not the neutral element).
+//	  [S]B = R + [k]A holds and A is in the prime-order subgroup (the neutral
+//	  element included: RFC 8032 verification accepts it).
 //	Either: the remaining cases (the cofactored equation holds but the
 //	  cofactorless one does not, or it holds for a key with a torsion
-//	  component or for the neutral element as key): RFC 8032 allows a
-//	  verifier to check either equation, and small-order keys may be refused.
+//	  component): RFC 8032 allows a verifier to check either equation.
 func (v *Variant) Verify(pub, msg, sig, ctx []byte) Verdict {
 	if len(pub) != v.B {
 		return Verdict{Class: MustReject, Reason: "public-key-length"}
@@ -254,11 +253,11 @@ func (v *Variant) Verify(pub, msg, sig, ctx []byte) Verdict {
 		res.Class, res.Reason = Either, "only-cofactored-equation-holds"
 	default:
 		res.KeyInSubgroup = v.C.IsIdentity(v.scalarMult(v.C.N, A))
-		if v.C.IsIdentity(A) {
-			// the neutral element is formally in the subgroup, but it is also a
-			// small-order point, which verifiers may refuse: nothing is demanded
-			res.Class, res.Reason = Either, "identity-key"
-		} else if res.KeyInSubgroup {
+		// The neutral element (canonical encoding 01 00..00) is in the prime-order
+		// subgroup: by the property's wording ("accepts whenever the cofactorless
+		// equation holds for a key in the prime-order subgroup") and by RFC 8032,
+		// which has no rule against it, it is judged like any other such key.
+		if res.KeyInSubgroup {
 			res.Class, res.Reason = MustAccept, "cofactorless-equation-holds"
 		} else {
 			res.Class, res.Reason = Either, "key-outside-prime-order-subgroup"
